@@ -93,14 +93,15 @@ func ReadBlockSummaries(fileName string,
 
 	for offset < fileSize {
 
-		// todo kunal do we need blksumlen ?
-		offset += 4 // for blkSumLen
-
-		if len(rbuf[offset:]) < 2+8+8+2+2 {
+		// the check includes the 4 bytes of blkSumLen: a file cut inside them must not be sliced beyond its end
+		if len(rbuf[offset:]) < 4+2+8+8+2+2 {
 			log.Errorf("ReadBlockSummaries: expected at least %d more bytes for block header, got %d more bytes; file=%v, offset=%d",
-				2+8+8+2+2, len(rbuf[offset:]), fileName, offset)
+				4+2+8+8+2+2, len(rbuf[offset:]), fileName, offset)
 			return blockSummaries, allBmi, errors.New("bad data")
 		}
+
+		// todo kunal do we need blksumlen ?
+		offset += 4 // for blkSumLen
 
 		// read blknum
 		blkNum := utils.BytesToUint16LittleEndian(rbuf[offset:])
